@@ -323,6 +323,20 @@ def r5_definitions(ctx):
     chk(q, "index = tuple((varied_idx if i == varied_axis else slice(None) for i in range(n_varied)))", "own-axis-indexed", "a varied level indexes its own axis, all others are full slices")
     chk(q, "result[index + (self.as_substance_index(k),)] = val", "level-stored-in-own-column", "the level is stored in the column of its substance")
     chk(q, "result[..., :] = self.as_per_substance_array(per_substance)", "base-values-broadcast", "non-varied values are broadcast to every combination")
+    # constructor: where the substance order comes from
+    q = "ReactionSystem.__init__"
+    init = ctx.func(RSYS, q)
+    from ..idioms import none_default
+    chk(q, "if substances is None: if self.rxns: substances = set.union(*[set(rxn.keys()) for rxn in self.rxns]) else: substances = set()", "default-substances=all-reaction-keys",
+        "given substances are used; without any the species of all reactions are taken")
+    chk(q, "if sort_substances is None: if isinstance(substances, (OrderedDict, tuple, list, str)): sort_substances = False else: sort_substances = True", "ordered-input-keeps-its-order",
+        "ordered containers keep the given order; only unordered ones are sorted")
+    chk(q, "if isinstance(substances, OrderedDict): self.substances = substances", "mapping-used-as-given", "an ordered mapping of substances is used as given")
+    chk(q, "if isinstance(substances, str) and ' ' in substances: substances = substances.split()", "string-of-keys-split", "a space separated string lists keys")
+    chk(q, "all((isinstance(s, Substance) for s in substances)): self.substances = OrderedDict([(s.name, s) for s in substances])", "instances-keyed-by-name", "Substance instances are keyed by their name, in the given order")
+    chk(q, "if missing_substances_from_keys: for k in set.union(*[set(rxn.keys()) for rxn in self.rxns]) - set(self.substances): self.substances[k] = substance_factory(k)", "missing-keys-added-on-request",
+        "species missing from the substances are created on request (and only the missing ones)")
+    chk(q, "if sort_substances: self.sort_substances_inplace()", "sorted-only-when-asked", "sorting happens only in the unordered case / on request")
     q = "ReactionSystem.upper_conc_bounds"
     fnu = ctx.func(RSYS, q)
     d = param_default(fnu, "skip_keys")
@@ -337,7 +351,7 @@ RULES = [
     Rule("C15-R1b", r1b_split_paths, 1, "split: index placed exactly once on every path of the grouping loop body", tier="thorough"),
     Rule("C15-R2", r2_categorize, 8, "categorisation signs and arms"),
     Rule("C15-R3", r3_bounds, 8, "upper bound = min(total/coeff), totals = sum coeff*conc"),
-    Rule("C15-R5", r5_definitions, 33, "membership tests, verdicts and argument order of the structural queries"),
+    Rule("C15-R5", r5_definitions, 40, "membership tests, verdicts and argument order of the structural queries"),
     Rule("C15-R4", r4_order_membership, 15, "order and membership plumbing"),
 ]
 
